@@ -25,7 +25,16 @@ fn hostile_ledger(r: &mut Rng) -> Ledger {
     let n = l.len() as u64;
     for _ in 0..(1 + r.below(3)) {
         let i = r.below(n) as usize;
-        match r.below(9) {
+        match r.below(11) {
+            9 | 10 => {
+                // two zero-quantity fills of one order on one day, somewhere apart in the file
+                l[i].a = Decimal::ZERO;
+                let mut t = l[i].clone();
+                t.b = Decimal::from(r.range(0, 50));
+                let at = r.below(l.len() as u64 + 1) as usize;
+                l.insert(at, t);
+                if r.chance(1, 2) { let d = l[at].date; let other = if l[at].ticker == "ZZZ" { "YYY" } else { "ZZZ" }; l.insert(at, GTx::new(d, other, Kind::Buy, Decimal::from(5), Decimal::TEN, Decimal::ZERO)); }
+            }
             0 => l[i].a = Decimal::ZERO,
             1 => l[i].b = Decimal::ZERO,
             2 => l[i].a = Decimal::new(1, 28),
@@ -100,9 +109,14 @@ pub fn run(ctx: &mut Ctx) {
             Ok(Err(_)) => { ctx.ev.count("bytes:clean-error"); if ctx.ev.nontrivial.len() < 100_000 { ctx.ev.nontrivial.insert(text.clone()); } }
         }
     }
-    for _ in 0..ctx.n(800, 30_000) {
+    // past failures first (corpus/C15: minimised hostile ledgers that crashed an earlier tree)
+    let past: Vec<Ledger> = corpus(prop).into_iter().map(|(_, l)| l).collect();
+    let npast = past.len();
+    let mut queue: Vec<Ledger> = past;
+    for _ in 0..ctx.n(800, 30_000) { queue.push(hostile_ledger(&mut r)); }
+    ctx.ev.count_n("hostile:corpus-ledgers", npast as u64);
+    for l in queue {
         ctx.ev.evaluations += 1;
-        let l = hostile_ledger(&mut r);
         let t0 = Instant::now();
         let res = run_impl::impl_calc_raw(&l, None, &ex);
         if t0.elapsed().as_secs() >= 10 { ctx.ev.violation("oracle", "calculate() takes more than 10 s on a small ledger".into(), replay_text(prop, "oracle", "hang", &l, &[])); }
